@@ -38,6 +38,7 @@ def main():
             r = sh(f"./check {p} --replay {replay}" if replay else f"./check {p} --tier {tier}", cwd=VERIF)
             if replay:
                 print(r.stdout[-3000:]); continue
+            open("/root/scratch/last_try_%s.log" % p, "w").write(r.stdout)
             viol = [l for l in r.stdout.splitlines() if l.startswith("VIOLATION") or l.startswith("  class:") or l.startswith("MACHINERY")]
             results[p] = {"exit": r.returncode, "wall_s": round(time.time() - t0, 1), "lines": viol[:12]}
             print(f"{name} vs {p} ({tier}): exit={r.returncode} in {results[p]['wall_s']}s")
